@@ -859,9 +859,16 @@ impl<'a> MetaStoreUpdate<'a> {
                 if chunk.role_position == ChunkRolePosition::SecondChunkMaster {
                     return Ok(());
                 }
+                // If the other proxy had already failed, both masters are on this proxy
+                // and the migrations of both parts get new addresses.
+                let both_moved = chunk.role_position == ChunkRolePosition::FirstChunkMaster;
                 chunk.role_position = ChunkRolePosition::SecondChunkMaster;
 
-                for migrating_slot_range in chunk.migrating_slots[0].iter_mut() {
+                let (first_part, second_part) = chunk.migrating_slots.split_at_mut(1);
+                let moved_slots = first_part[0]
+                    .iter_mut()
+                    .chain(second_part[0].iter_mut().filter(|_| both_moved));
+                for migrating_slot_range in moved_slots {
                     migrating_slot_range.meta.epoch = new_epoch;
                     peer_position.insert((
                         migrating_slot_range.meta.src_chunk_index,
@@ -877,9 +884,14 @@ impl<'a> MetaStoreUpdate<'a> {
                 if chunk.role_position == ChunkRolePosition::FirstChunkMaster {
                     return Ok(());
                 }
+                let both_moved = chunk.role_position == ChunkRolePosition::SecondChunkMaster;
                 chunk.role_position = ChunkRolePosition::FirstChunkMaster;
 
-                for migrating_slot_range in chunk.migrating_slots[1].iter_mut() {
+                let (first_part, second_part) = chunk.migrating_slots.split_at_mut(1);
+                let moved_slots = second_part[0]
+                    .iter_mut()
+                    .chain(first_part[0].iter_mut().filter(|_| both_moved));
+                for migrating_slot_range in moved_slots {
                     migrating_slot_range.meta.epoch = new_epoch;
                     peer_position.insert((
                         migrating_slot_range.meta.src_chunk_index,
